@@ -237,6 +237,33 @@ pub fn run(run: &Run) {
         }
         true
     });
+    // plane aliases: every assigned supplementary code point next to the BMP code point with the same low 16 bits (and the
+    // code point one plane up), in both orders and inside an RTL frame
+    run.par("plane_alias_battery", true, |tid, n, l| {
+        let d = db();
+        let mut cp = 0x10000 + tid as u32;
+        while cp < 0x110000 {
+            if d.u16.listed[cp as usize] {
+                if let Some(c) = char::from_u32(cp) {
+                    for other in [cp & 0xffff, cp ^ 0x10000, (cp & 0xffff) | 0x20000] {
+                        let Some(o) = char::from_u32(other) else { continue };
+                        if other == cp || !d.u16.listed[other as usize] {
+                            continue;
+                        }
+                        for (t, s) in [format!("{o}{c}"), format!("{c}{o}"), format!("{o}{c}_"), format!("\u{5d0}{o}{c}"), format!("a{c}{o}1")].into_iter().enumerate() {
+                            l.cases += 1;
+                            let p = profs[t % 2];
+                            if check(run, p, &s, l).is_err() {
+                                report(run, p, &s);
+                                return;
+                            }
+                        }
+                    }
+                }
+            }
+            cp += n as u32;
+        }
+    });
     // exact run lengths of every class (counters that wrap), inside RTL and LTR labels
     run.par("class_runs_exact_counts", true, |tid, n, l| {
         let reps = reps_for("class_runs_exact_counts", tid);
